@@ -102,6 +102,10 @@ def exc_site(tb, exc):
     return f"{type(exc).__name__}@{os.path.splitext(os.path.basename(f))[0]}.{fn}"
 
 
+def arch_name(arch):
+    return arch.accelerator_config.value
+
+
 def _worker(job):
     seed, idx, profile, want = job
     import netgen
@@ -138,6 +142,9 @@ def _worker(job):
                     except Exception:
                         out.setdefault("harness_errors", []).append(traceback.format_exc()[-800:])
                 nops.append(len(art.npu_ops))
+                if "words" in want:
+                    out.setdefault("cmd_words", []).append(list(art.words))
+                    out.setdefault("acc", arch_name(art.arch))
                 out.setdefault("op_meta", []).append(pipeline.op_meta(art))
                 feats |= pipeline.stream_features(art)
             out["extents"] = ext
